@@ -222,12 +222,22 @@ func prepareCases(cs *c09One) {
 			if op.Op != "compile" && op.Op != "parse" || preparedCases[prepKey(op)] != nil {
 				continue
 			}
-			gc := gen.Generate(op.Seed, smallOpts())
+			o := smallOpts()
+			if op.Seed%3 == 0 {
+				o.MaxFiles = 6 // now and then a bundle of many small files
+			}
+			gc := gen.Generate(op.Seed, o)
 			for i, f := range gc.Files {
 				gc.Files[i] = &gen.File{Name: f.Name, Text: f.Source()}
 			}
 			if op.Bad {
 				gc.Files[0].Text = damage(gc.Files[0].Text, op.Seed)
+				// in a larger bundle several files are damaged
+				for i := 1; i < len(gc.Files); i++ {
+					if (op.Seed>>uint(i))&1 == 1 {
+						gc.Files[i].Text = damage(gc.Files[i].Text, op.Seed+uint64(i))
+					}
+				}
 			}
 			preparedCases[prepKey(op)] = gc
 		}
